@@ -73,6 +73,8 @@ class St(object):
         self.refused = a['_refused_input']
         self.C = ghost['C']
         self.A = ghost.get('A') or ZSet(NAME, z3.K(NAME, z3.BoolVal(False)), 'A')
+        self.ticks = ghost.get('ticks', z3.IntVal(0))
+        self.Rk = ghost.get('Rk')
         self.wd, self.wk = ghost['wd'], ghost['wk']
         self.R = ghost.get('R') or ZBag(OBJ, name='R')
         self.inflight = ghost.get('inflight')
@@ -131,6 +133,7 @@ def grows(s0, s, attempted=None):
         ('values-only-grow', z3.ForAll([L], z3.Implies(s0.V.has[L], z3.And(s.V.has[L], same(L))))),
         ('inputs-only-grow', z3.ForAll([L], z3.Implies(s0.C.mem[L], s.C.mem[L]))),
         ('answers-given-only-grow', z3.ForAll([L], z3.Implies(s0.A.mem[L], s.A.mem[L]))),
+        ('work-counter-only-grows', s.ticks >= s0.ticks),
         ('scheduled-only-grows', z3.ForAll([L], z3.Implies(s0.S.mem[L], s.S.mem[L]))),
         ('field-map-only-grows', z3.ForAll([L], z3.Implies(s0.FM.has[L], z3.And(s.FM.has[L], s.FM.val[L] == s0.FM.val[L])))),
         ('input-map-only-grows', z3.ForAll([L], z3.Implies(s0.IM.has[L], s.IM.has[L]))),
@@ -178,6 +181,8 @@ class SolverSpec(corevc.Spec):
         me = AObj(solver.Solver, a, name='solver')
         it.ghost['C'] = ZSet.havoc(NAME, 'C')
         it.ghost['A'] = ZSet.havoc(NAME, 'A')      # ghost: inputs the user has answered (prompt returned supplied with a valid string)
+        # ghost work counter (C06): +1 per evaluation of a line, per question asked, per drain of a non-empty "met" list
+        it.ghost['ticks'] = fresh('ticks', z3.IntSort())
         it.ghost['wd'] = fresh('wd', z3.ArraySort(NAME, NAME))
         it.ghost['wk'] = fresh('wk', z3.ArraySort(NAME, NAME))
         it.ghost['R'] = ZBag(OBJ, name='R')
@@ -215,6 +220,7 @@ class SolverSpec(corevc.Spec):
             a['_refused_input'] = SV('bool', fresh('refused', z3.BoolSort()))
         it.ghost['C'] = ZSet.havoc(NAME, 'C')
         it.ghost['A'] = ZSet.havoc(NAME, 'A')
+        it.ghost['ticks'] = fresh('ticks', z3.IntSort())
         it.ghost['wd'] = fresh('wd', z3.ArraySort(NAME, NAME))
         it.ghost['wk'] = fresh('wk', z3.ArraySort(NAME, NAME))
         # frame facts relative to the state at loop entry (everything only grows)
@@ -259,6 +265,7 @@ class SolverSpec(corevc.Spec):
         s = self.st(it, me)
         r = it.run
         it.ghost['evaluations'] = it.ghost.get('evaluations', 0) + 1
+        it.ghost['ticks'] = it.ghost.get('ticks', z3.IntVal(0)) + 1
         acc = it.ghost.get('oracle_args')
         ok_acc = False
         if acc is not None and len(acc) == 2:
@@ -274,6 +281,7 @@ class SolverSpec(corevc.Spec):
         if r.branch(fresh('line_unmet', z3.BoolSort()), where=f'oracle-unmet@{node.lineno}'):
             d = fresh('dep', NAME)
             r.fact(z3.Not(s.V.has[d]))
+            it.ghost['oracle_dep'] = d
             raise Raised(values.UnmetDependency(wrap(d)), node)
         if r.branch(fresh('line_missing_input', z3.BoolSort()), where=f'oracle-mi@{node.lineno}'):
             k = fresh('key', NAME)
@@ -282,6 +290,7 @@ class SolverSpec(corevc.Spec):
         if r.branch(fresh('line_missing_spec', z3.BoolSort()), where=f'oracle-mis@{node.lineno}'):
             k = fresh('key', NAME)
             r.fact(z3.Not(s.IM.has[k]))
+            it.ghost['oracle_key'] = k
             raise Raised(inputs.MissingInputSpecification(wrap(k)), node)
         if r.branch(fresh('line_invalid_input', z3.BoolSort()), where=f'oracle-inv@{node.lineno}'):
             # InputStore.__getitem__ (C11): a provided text the validator rejects is reported as InvalidInput, never turned into a value
@@ -318,6 +327,7 @@ class SolverSpec(corevc.Spec):
             it.oblige(f'prompt@{it.site(node)}/needed-by-is-the-list-of-lines-waiting-on-that-input',
                       z3.And(z3.BoolVal(bool(is_entry)), (nb.k == k) if is_entry else z3.BoolVal(False)))
             it.ghost['prompts'] = it.ghost.get('prompts', []) + [(k, value, supplied)]
+            it.ghost['ticks'] = it.ghost.get('ticks', z3.IntVal(0)) + 1
             # A-PROMPT: the callback either raises (input ended, a signal, ...) or returns; an answer counts as given
             # when it is returned as supplied and passes the input's validator (C11 proves prompt_input returns only such answers)
             if it.run.branch(fresh('prompt_raises', z3.BoolSort()), where=f'prompt-raises@{node.lineno}'):
@@ -422,6 +432,7 @@ def _spec_methods():
         it.run.fact(z3.ForAll([d, x], YP[d][x] <= Y.cnt[x]))
         it.run.fact(z3.ForAll([x], z3.Implies(Y.cnt[x] > 0, YP[src[x]][x] > 0)))
         tracker.attrs['_unmet'], tracker.attrs['_met'] = U, M
+        it.ghost['ticks'] = it.ghost.get('ticks', z3.IntVal(0)) + z3.If(M0.size > 0, 1, 0)     # emptying a non-empty "met" list is work
         return Y
 
     SolverSpec.sym_attr_call = sym_attr_call
@@ -520,6 +531,9 @@ def attempt_field_contract(spec):
         it.run.fact(z3.And(s1.MI.size == pre.MI.size, z3.ForAll([L], s1.MI.cnt[L] == pre.MI.cnt[L])))
         it.run.fact(s1.C.mem == pre.C.mem)
         it.run.fact(s1.A.mem == pre.A.mem)
+        it.run.fact(s1.ticks >= pre.ticks + 1)      # an attempt evaluates the line at least once
+        it.run.fact(z3.ForAll([Dn], z3.Implies(pre.UI.has[Dn], s1.UI.has[Dn])))     # an attempt never drops a wait on an input
+        it.run.fact(s1.MF.size >= pre.MF.size)      # ... nor an undrained "met" entry
         if isinstance(pre.refused, SV):
             it.run.fact(to_term(s1.refused) == to_term(pre.refused))
         it.ghost['attempts'] = it.ghost.get('attempts', 0) + 1
@@ -624,8 +638,27 @@ def solve_loop_invariant(self, node):
                 out.append(('remaining-keys-not-yet-answered', z3.ForAll([Dn], z3.Implies(Rk.cnt[Dn] > 0, z3.And(s.MI.cnt[Dn] == 0, Rk.cnt[Dn] <= 1)))))
         if ix not in (4, 6):
             out.append(('nothing-released-pending', z3.ForAll([Fo], s.R.cnt[Fo] == 0)))
+        # C06 progress: a loop that consumed nothing did no work, so leaving it with something consumed means work was done
+        if ix in (3, 4) and entry is not None:
+            out.append(('waits-on-inputs-are-kept-by-attempts', z3.ForAll([Dn], z3.Implies(entry.UI.has[Dn], s.UI.has[Dn]))))
+            if isinstance(entry.refused, SV) and isinstance(s.refused, SV):
+                out.append(('refusal-flag-kept-by-attempts', to_term(s.refused) == to_term(entry.refused)))
+        if ix == 3 and entry is not None:
+            out.append(('met-lines-not-yet-drained-are-kept', s.MF.size >= entry.MF.size))
+        if ix in (3, 4, 5) and entry is not None:
+            out.append(('answered-inputs-not-yet-drained-are-kept', s.MI.size >= entry.MI.size))
+        if ix == 3 and entry is not None:
+            out.append(('idle-means-queue-unchanged', z3.Implies(s.ticks == entry.ticks, s.Q.size == entry.Q.size)))
+        if ix == 5 and entry is not None and entry.Rk is not None and it.ghost.get('Rk') is not None:
+            out.append(('idle-means-no-question-consumed', z3.Implies(s.ticks == entry.ticks, it.ghost['Rk'].size == entry.Rk.size)))
         return out
-    return {'inv': I, 'modifies': ['*']}
+    spec = {'inv': I, 'modifies': ['*']}
+    if ix == 2:
+        # every iteration of the main loop evaluates a line, asks a question or empties a non-empty "met" list: with finitely many
+        # lines, inputs and waits (finite catalogue) the loop cannot spin
+        spec['iter_begin'] = lambda it, me, frame: self.st(it, me).ticks
+        spec['iter_end'] = lambda it, me, frame, t0: [('every-iteration-of-the-main-loop-does-work', self.st(it, me).ticks > t0)]
+    return spec
 
 
 SolverSpec.loop_invariant = solve_loop_invariant
